@@ -29,8 +29,13 @@ class PathCtx:
         self.notes: list[str] = []
         self.solver = z3.Solver()
         self.solver.set("timeout", FEAS_TIMEOUT_MS)
+        # a second solver holding only the linear constraints: an over-approximation of the path used
+        # to settle forced decisions quickly (unsat there => unsat under the full path condition)
+        self.lin = z3.Solver()
+        self.lin.set("timeout", FEAS_TIMEOUT_MS)
+        self.decided = {}
         for c in base_constraints:
-            self.solver.add(c)
+            self._add(c)
             self.pc.append(c)
         self.n_base = len(self.pc)
         self.feas_unknown = 0
@@ -40,9 +45,14 @@ class PathCtx:
         """Add a constraint that is not a branch (precondition, callee post-condition)."""
         t = sym.as_bool_term(cond)
         self.pc.append(t)
-        self.solver.add(t)
+        self._add(t)
         if note:
             self.notes.append(note)
+
+    def _add(self, t):
+        self.solver.add(t)
+        if is_linear(t):
+            self.lin.add(t)
 
     def assume_nonzero(self, den):
         s = z3.simplify(den)
@@ -57,7 +67,7 @@ class PathCtx:
         self.nonzero.append(s)
         c = s != 0
         self.pc.append(c)
-        self.solver.add(c)
+        self._add(c)
 
     # -- the only place paths fork
     def branch(self, cond) -> bool:
@@ -66,12 +76,27 @@ class PathCtx:
             return True
         if z3.is_false(cond):
             return False
+        key = cond.get_id()
+        hit = self.decided.get(key)
+        if hit is not None and hit[0].eq(cond):
+            # the same condition was decided earlier on this path: the path condition implies it
+            # (the term is kept alive in the cache, so its id cannot be reused for another term)
+            return hit[1]
         i = len(self.decisions)
         if i < len(self.prefix):
             choice, forced = self.prefix[i]
         else:
-            can_t = self._feasible(cond)
-            can_f = self._feasible(z3.Not(cond))
+            can_t = can_f = None
+            if is_linear(cond):
+                # settle implied conditions on the linear over-approximation of the path (the path itself
+                # is feasible, so if one side is impossible the other one is taken)
+                if self.lin.check(z3.Not(cond)) == z3.unsat:
+                    can_t, can_f = True, False
+                elif self.lin.check(cond) == z3.unsat:
+                    can_t, can_f = False, True
+            if can_t is None:
+                can_t = self._feasible(cond)
+                can_f = self._feasible(z3.Not(cond))
             if can_t and can_f:
                 choice, forced = True, False
             elif can_t:
@@ -81,18 +106,53 @@ class PathCtx:
             else:
                 raise PathAbort()
         self.decisions.append((choice, forced))
+        self.decided[key] = (cond, choice)
         if not forced:
             c = cond if choice else z3.Not(cond)
             self.pc.append(c)
-            self.solver.add(c)
+            self._add(c)
         return choice
 
     def _feasible(self, c) -> bool:
+        if is_linear(c) and self.lin.check(c) == z3.unsat:
+            return False
         r = self.solver.check(c)
         if r == z3.unknown:
             self.feas_unknown += 1
             return True
         return r == z3.sat
+
+
+_LIN_CACHE = {}
+
+
+def is_linear(t) -> bool:
+    """No product of two non-numeral terms, no division by a non-numeral, no uninterpreted function."""
+    i = t.get_id()
+    hit = _LIN_CACHE.get(i)
+    if hit is not None and hit[0].eq(t):
+        return hit[1]
+    r = True
+    if z3.is_app(t):
+        k = t.decl().kind()
+        ch = t.children()
+        if k == z3.Z3_OP_MUL:
+            if sum(0 if z3.is_rational_value(c) or z3.is_int_value(c) else 1 for c in ch) > 1:
+                r = False
+        elif k == z3.Z3_OP_DIV:
+            if not (z3.is_rational_value(ch[1]) or z3.is_int_value(ch[1])):
+                r = False
+        elif k == z3.Z3_OP_POWER:
+            r = False
+        elif k == z3.Z3_OP_UNINTERPRETED and t.num_args() > 0:
+            r = False
+        if r:
+            r = all(is_linear(c) for c in ch)
+    elif z3.is_quantifier(t):
+        r = False
+    if len(_LIN_CACHE) < 200000:
+        _LIN_CACHE[i] = (t, r)  # the term is kept alive: ids of freed terms are reused by z3
+    return r
 
 
 class Path:
@@ -376,3 +436,81 @@ def _close(a, b):
         return abs(a - b) <= EVAL_RTOL * max(1.0, abs(a), abs(b))
     except Exception:
         return False
+
+
+# ----------------------------------------------------------------------------- rational normal form
+def _has_div(t, seen=None):
+    seen = set() if seen is None else seen
+    stack = [t]
+    while stack:
+        x = stack.pop()
+        i = x.get_id()
+        if i in seen:
+            continue
+        seen.add(i)
+        if z3.is_app(x):
+            if x.decl().kind() == z3.Z3_OP_DIV:
+                return True
+            stack.extend(x.children())
+    return False
+
+
+def ratform(t, cache):
+    """(numerator, denominator) of an arithmetic term; non-arithmetic sub-terms are atoms."""
+    i = t.get_id()
+    if i in cache:
+        return cache[i]
+    one = z3.RealVal(1)
+    k = t.decl().kind() if z3.is_app(t) else None
+    if k == z3.Z3_OP_ADD:
+        n, d = ratform(t.arg(0), cache)
+        for c in t.children()[1:]:
+            n2, d2 = ratform(c, cache)
+            if d.eq(d2):
+                n = n + n2
+            else:
+                n, d = n * d2 + n2 * d, d * d2
+        r = (n, d)
+    elif k == z3.Z3_OP_SUB:
+        n, d = ratform(t.arg(0), cache)
+        for c in t.children()[1:]:
+            n2, d2 = ratform(c, cache)
+            if d.eq(d2):
+                n = n - n2
+            else:
+                n, d = n * d2 - n2 * d, d * d2
+        r = (n, d)
+    elif k == z3.Z3_OP_UMINUS:
+        n, d = ratform(t.arg(0), cache)
+        r = (-n, d)
+    elif k == z3.Z3_OP_MUL:
+        n, d = one, one
+        for c in t.children():
+            n2, d2 = ratform(c, cache)
+            n = n * n2
+            d = d if d2.eq(one) else (d2 if d.eq(one) else d * d2)
+        r = (n, d)
+    elif k == z3.Z3_OP_DIV:
+        n1, d1 = ratform(t.arg(0), cache)
+        n2, d2 = ratform(t.arg(1), cache)
+        r = (n1 * d2, d1 * n2)
+    else:
+        r = (t, one)
+    cache[i] = r
+    return r
+
+
+def prove_rational_identity(goal):
+    """True if ``goal`` (an equality of reals, or a conjunction of such) holds as an identity of
+    rational functions after clearing denominators (denominators are non-zero on the path)."""
+    conj = goal.children() if z3.is_and(goal) else [goal]
+    cache = {}
+    for c in conj:
+        if not (z3.is_eq(c) and c.arg(0).sort() == z3.RealSort()):
+            return False
+        ln, ld = ratform(c.arg(0), cache)
+        rn, rd = ratform(c.arg(1), cache)
+        diff = z3.simplify(ln * rd - rn * ld, som=True, som_blowup=10000000)
+        if not (z3.is_rational_value(diff) and diff.numerator_as_long() == 0):
+            return False
+    return True
